@@ -103,6 +103,8 @@ type c20Case struct {
 	Trailers []peer.FieldSpec `json:"trailers,omitempty"`
 	Splits   []int            `json:"splits,omitempty"`
 	Mut      string           `json:"mut,omitempty"`
+	Chunks   []int            `json:"chunks,omitempty"`  // DATA chunk sizes (cycled)
+	PadData  []int            `json:"paddata,omitempty"` // per DATA frame: 0 = unpadded, n = pad length n-1 (cycled)
 }
 
 func plainList(fs []peer.FieldSpec) []refhpack.Field {
@@ -187,7 +189,7 @@ func c20Run(c c20Case) Outcome {
 		for i := range body {
 			body[i] = byte('a' + i%26)
 		}
-		for _, f := range peer.DataFrames(target, body, nil, nil, len(c.Trailers) == 0) {
+		for _, f := range peer.DataFrames(target, body, c.Chunks, c.PadData, len(c.Trailers) == 0) {
 			_ = h.Write(f)
 		}
 		if len(c.Trailers) > 0 {
@@ -433,7 +435,16 @@ func c20Gen(t *rapid.T) c20Case {
 			muts = append(muts, "cl-"+kind)
 		case 13:
 			if c.BodyLen > 0 {
-				c.Trailers = append(c.Trailers, genFieldSpec(t, rapid.SampledFrom([]string{":path", ":status", "X-Up", "connection", "te"}).Draw(t, "btr"), "gzip"))
+				bad := genFieldSpec(t, rapid.SampledFrom([]string{":path", ":status", ":authority", ":method", ":scheme", ":foo", "X-Up", "connection", "te"}).Draw(t, "btr"), rapid.SampledFrom([]string{"gzip", "evil.example", "/other"}).Draw(t, "btrv"))
+				// after the regular trailer fields, before them, or alone
+				switch rapid.IntRange(0, 2).Draw(t, "btrpos") {
+				case 0:
+					c.Trailers = append(c.Trailers, bad)
+				case 1:
+					c.Trailers = append([]peer.FieldSpec{bad}, c.Trailers...)
+				default:
+					c.Trailers = []peer.FieldSpec{bad}
+				}
 				muts = append(muts, "bad-trailer")
 			}
 		case 14: // repeated regular field (still well-formed)
@@ -466,6 +477,12 @@ func c20Gen(t *rapid.T) c20Case {
 	if rapid.IntRange(0, 3).Draw(t, "split") == 0 {
 		c.Splits = []int{rapid.IntRange(0, 500).Draw(t, "splitat")}
 	}
+	if c.BodyLen > 0 && rapid.IntRange(0, 2).Draw(t, "framing") == 0 {
+		// the body in several DATA frames, some empty, some padded: padding and
+		// frame count are not part of the body a content-length speaks about
+		c.Chunks = rapid.SliceOfN(rapid.SampledFrom([]int{0, 1, 7, 100}), 1, 3).Draw(t, "chunks")
+		c.PadData = rapid.SliceOfN(rapid.SampledFrom([]int{0, 1, 2, 9, 256}), 1, 3).Draw(t, "paddata")
+	}
 	return c
 }
 
@@ -484,7 +501,7 @@ func shuffle(t *rapid.T, fs []peer.FieldSpec) []peer.FieldSpec {
 
 func TestC20(t *testing.T) {
 	s := newSuite(t, "C20",
-		"server: a header list built from a well-formed base (pseudo-headers in any order, 0..6 regular fields incl. cookies/te: trailers, optional content-length, body 0..300, optional trailers) with 0..2 mutations from a catalogue (mandatory pseudo-header dropped/duplicated/empty :path, pseudo after regular, :status or unknown pseudo, upper-case name, connection-specific field, te other than trailers, content-length smaller/larger/non-numeric/signed/empty/2^64+n/leading zeros/hex/trailing space, malformed trailers, repeated regular fields), placed among 0..2 plain requests before and after on the same connection, header block optionally split; oracle = RFC 7540 8.1.2 predicate (DESIGN appendix B): handler runs iff well-formed, otherwise RST_STREAM(PROTOCOL_ERROR) or a 4xx on that stream only, neighbours served intact, no GOAWAY. Non-trivial = list with exactly one rule broken, or a well-formed list with a repeated field or trailers; distinct by case hash.",
+		"server: a header list built from a well-formed base (pseudo-headers in any order, 0..6 regular fields incl. cookies/te: trailers, optional content-length, body 0..300 in one DATA frame or several with empty and padded frames, optional trailers) with 0..2 mutations from a catalogue (mandatory pseudo-header dropped/duplicated/empty :path, pseudo after regular, :status or unknown pseudo, upper-case name, connection-specific field, te other than trailers, content-length smaller/larger/non-numeric/signed/empty/2^64+n/leading zeros/hex/trailing space, malformed trailers (pseudo-header incl. ones the request did not use, upper-case, connection-specific, te; first, last or alone in the trailer block), repeated regular fields), placed among 0..2 plain requests before and after on the same connection, header block optionally split; oracle = RFC 7540 8.1.2 predicate (DESIGN appendix B): handler runs iff well-formed, otherwise RST_STREAM(PROTOCOL_ERROR) or a 4xx on that stream only, neighbours served intact, no GOAWAY. Non-trivial = list with exactly one rule broken, or a well-formed list with a repeated field or trailers; distinct by case hash.",
 		"CONNECT, '*' paths, characters outside token/field-value, empty names and duplicated content-length are not generated (RFC 7540 does not fix their treatment)", "the body of a request already refused at header time is not sent (frames in flight after the server's RST are C09's subject)")
 	defer s.finish()
 	runLane(s, Lane[c20Case]{Name: "server", Journal: true, Quick: 4000, Thor: 600000, Gen: c20Gen, Run: c20Run})
